@@ -356,11 +356,12 @@ def worker(ctx):
                 G._fix_slots(m2)
                 m2.sssr, m2.rings_count, m2.atoms_rings_sizes, m2.connected_components
                 m2 |= G.ring_assembly(rng, nrings=rng.randrange(1, 4), max_atoms=20)
+                name2 = 'merged-in-place:' + format(m2, '!s')
             except Exception as e:
                 ctx.violation('in-place-union-raises/%s' % type(e).__name__, '%s: %r' % (src, e), {'src': src})
                 continue
             ctx.count('graphs.merged-in-place')
-            check_molecule(ctx, m2, 'merged-in-place:' + format(m2, '!s') if True else src)
+            check_molecule(ctx, m2, name2)
     # corpus + repository ring test set
     c = T.corpus()
     ids = list(range(len(c)))
